@@ -696,3 +696,355 @@ def substitution_check(tier, seed):
 
 
 CHECKS["substitution"] = substitution_check
+
+
+# ---------------------------------------------------------------------------
+# C10 / C11: normal forms, QE, CNF, Ackermann on generated formulas (exact evaluation)
+# ---------------------------------------------------------------------------
+class BoolGen:
+    """Boolean structure over Bool symbols, theory atoms (Int/BV2), Boolean ITE/IFF, quantifiers
+    over Bool / BV2 variables (incl. shadowing), shared sub-formulas."""
+    def __init__(self, env, seed):
+        self.m = env.formula_manager
+        self.r = random.Random(seed)
+        m = self.m
+        self.bools = [m.Symbol("p%d" % i) for i in range(4)]
+        self.ints = [m.Symbol("i%d" % i, INT) for i in range(2)]
+        self.bvs = [m.Symbol("v%d" % i, BVType(2)) for i in range(2)]
+        self.pool = []
+
+    def atom(self):
+        m, r = self.m, self.r
+        k = r.randrange(8)
+        if k < 4:
+            return r.choice(self.bools)
+        if k == 4:
+            return m.LE(r.choice(self.ints), m.Int(r.randint(-1, 1)))
+        if k == 5:
+            return m.BVULT(r.choice(self.bvs), r.choice(self.bvs + [m.BV(r.randrange(4), 2)]))
+        if k == 6:
+            return m.Equals(r.choice(self.ints), r.choice(self.ints))
+        return m.Bool(r.random() < 0.5)
+
+    def formula(self, depth, quant=True):
+        m, r = self.m, self.r
+        if depth <= 0 or r.random() < 0.12:
+            return self.atom()
+        if self.pool and r.random() < 0.15:
+            return r.choice(self.pool)
+        k = r.randrange(9 if quant else 7)
+        f = lambda: self.formula(depth - 1, quant)
+        if k == 0:
+            res = m.And([f() for _ in range(r.randint(2, 3))])
+        elif k == 1:
+            res = m.Or([f() for _ in range(r.randint(2, 3))])
+        elif k == 2:
+            res = m.Not(f())
+        elif k == 3:
+            res = m.Implies(f(), f())
+        elif k == 4:
+            res = m.Iff(f(), f())
+        elif k == 5:
+            res = m.Ite(f(), f(), f())
+        elif k == 6:
+            res = m.Not(m.Ite(f(), f(), f()))
+        else:
+            vs = r.sample(self.bools + self.bvs, r.randint(1, 2))
+            res = (m.ForAll if k == 7 else m.Exists)(vs, f())
+        self.pool.append(res)
+        return res
+
+
+def shape_nnf(f):
+    st, seen = [f], set()
+    while st:
+        n = st.pop()
+        if n in seen:
+            continue
+        seen.add(n)
+        if n.is_not():
+            a = n.arg(0)
+            if a.is_bool_op() or (a.is_ite() and a.get_type().is_bool_type()):
+                return "negation over non-atom %s" % a
+            continue
+        if n.is_implies() or n.is_iff() or (n.is_ite() and n.get_type().is_bool_type()):
+            return "connective %s left" % n
+        if n.is_and() or n.is_or() or n.is_quantifier():
+            st.extend(n.args())
+    return None
+
+
+def shape_aig(f):
+    st, seen = [f], set()
+    while st:
+        n = st.pop()
+        if n in seen:
+            continue
+        seen.add(n)
+        if n.is_or() or n.is_implies() or n.is_iff() or (n.is_ite() and n.get_type().is_bool_type()):
+            return "connective other than and/not: %s" % n
+        if n.is_and() or n.is_not() or n.is_quantifier():
+            st.extend(n.args())
+    return None
+
+
+def shape_prenex(f):
+    while f.is_quantifier():
+        f = f.arg(0)
+    st, seen = [f], set()
+    while st:
+        n = st.pop()
+        if n in seen:
+            continue
+        seen.add(n)
+        if n.is_quantifier():
+            return "quantifier inside the matrix"
+        st.extend(n.args())
+    return None
+
+
+def has_quant(f):
+    st, seen = [f], set()
+    while st:
+        n = st.pop()
+        if n in seen:
+            continue
+        seen.add(n)
+        if n.is_quantifier():
+            return True
+        st.extend(n.args())
+    return False
+
+
+def all_interps(syms, rng, cap=24):
+    doms = []
+    for s in syms:
+        t = s.symbol_type()
+        doms.append(refeval.finite_domain(t) if (t.is_bool_type() or t.is_bv_type()) else [-1, 0, 1])
+    combos = list(itertools.product(*doms))
+    if len(combos) > cap:
+        combos = rng.sample(combos, cap)
+    return [dict(zip(syms, c)) for c in combos]
+
+
+def equiv_exact(f, g, rng):
+    syms = sorted(refeval.free_symbols(f) | refeval.free_symbols(g), key=lambda s: s.symbol_name())
+    for vals in all_interps(syms, rng):
+        a = refeval.evaluate(f, refeval.Interp(values=dict(vals)))
+        b = refeval.evaluate(g, refeval.Interp(values=dict(vals)))
+        if bool(a) != bool(b):
+            return {str(k): repr(v) for k, v in vals.items()}
+    return None
+
+
+def rewriters_check(tier, seed):
+    from pysmt.rewritings import nnf, prenex_normal_form, aig, conjunctive_partition, disjunctive_partition, \
+        propagate_toplevel, TimesDistributor
+    from pysmt.solvers.qelim import ShannonQuantifierEliminator, SelfSubstitutionQuantifierEliminator
+    env = fresh_env()
+    m = env.formula_manager
+    rng = random.Random(seed)
+    bg = BoolGen(env, seed)
+    trials = 120 if tier == "quick" else 2000
+    n = nontriv = 0
+    viol, samples = [], []
+    for t in range(trials):
+        f = bg.formula(rng.randint(1, 3))
+        n += 1
+        if f.args():
+            nontriv += 1
+        checks = [("nnf", lambda: nnf(f, env), shape_nnf), ("aig", lambda: aig(f, env), shape_aig),
+                  ("prenex", lambda: prenex_normal_form(f, env), shape_prenex),
+                  ("conj-partition", lambda: m.And(list(conjunctive_partition(f))), None),
+                  ("disj-partition", lambda: m.Or(list(disjunctive_partition(f))), None),
+                  ("propagate_toplevel", lambda: propagate_toplevel(f, env), None)]
+        # Boolean QE: quantifiers over Boolean variables only
+        bq = True
+        st, seen = [f], set()
+        while st:
+            x = st.pop()
+            if x in seen:
+                continue
+            seen.add(x)
+            if x.is_quantifier() and any(not v.symbol_type().is_bool_type() for v in x.quantifier_vars()):
+                bq = False
+            st.extend(x.args())
+        if bq:
+            checks.append(("qelim-shannon", lambda: ShannonQuantifierEliminator(env).eliminate_quantifiers(f),
+                           lambda r: "quantifier left" if has_quant(r) else None))
+            checks.append(("qelim-selfsub", lambda: SelfSubstitutionQuantifierEliminator(env).eliminate_quantifiers(f),
+                           lambda r: "quantifier left" if has_quant(r) else None))
+        for name, fn, shape in checks:
+            try:
+                r = fn()
+            except Exception as e:
+                viol.append({"key": name + "-exception", "formula": f.serialize(), "error": repr(e)[:200]})
+                break
+            cex = equiv_exact(f, r, rng)
+            if cex is not None:
+                viol.append({"key": name, "formula": f.serialize(), "result": r.serialize(), "interpretation": cex})
+                break
+            bad = shape(r) if shape else None
+            if bad:
+                viol.append({"key": name + "-shape", "formula": f.serialize(), "result": r.serialize(), "problem": bad})
+                break
+        if viol:
+            break
+        if len(samples) < 3 and has_quant(f):
+            samples.append(f.serialize())
+    # TimesDistributor on arithmetic terms
+    g = Gen(env, seed=seed, consts_bias=0.4)
+    for t in range(trials if not viol else 0):
+        ty = rng.choice([INT, REAL])
+        try:
+            x = g.term(ty, 3)
+        except Exception:
+            continue
+        st, seen, bad_ops = [x], set(), False
+        while st:
+            y = st.pop()
+            if y in seen:
+                continue
+            seen.add(y)
+            st.extend(y.args())
+        n += 1
+        try:
+            r = TimesDistributor(env).walk(x)
+        except Exception as e:
+            continue
+        d = refeval.equivalent(x, r, trials=12, seed=t)
+        if d is not None:
+            viol.append({"key": "times-distributor", "term": x.serialize(), "result": r.serialize(), "difference": d})
+            break
+    return {"name": "rewriters", "bounded": True, "evaluations": n, "distinct_nontrivial": nontriv,
+            "rule": "%d generated formulas over 4 Bool / 2 Int / 2 BV2 symbols with Boolean ITE/IFF in both polarities, shared "
+                    "sub-formulas and nested, shadowing quantifiers over Bool and BV2; every rewriter's result compared with the "
+                    "input on all interpretations (quantifiers evaluated exactly) and checked for its advertised shape; "
+                    "plus %d arithmetic terms through TimesDistributor" % (trials, trials),
+            "samples": samples, "violations": viol}
+
+
+def cnf_check(tier, seed):
+    from pysmt.rewritings import CNFizer, PolarityCNFizer, Ackermannizer
+    env = fresh_env()
+    m = env.formula_manager
+    rng = random.Random(seed)
+    bg = BoolGen(env, seed)
+    trials = 300 if tier == "quick" else 3000
+    n = nontriv = 0
+    viol, samples = [], []
+    special = [m.And(bg.bools[0], m.FALSE()), m.Iff(m.FALSE(), m.TRUE()), m.Or(bg.bools[0], m.TRUE()), m.Not(m.TRUE()),
+               m.Ite(m.And(bg.bools[0], bg.bools[1]), bg.bools[2], bg.bools[3]), m.FALSE(), m.TRUE()]
+    for t in range(trials):
+        f = special[t] if t < len(special) else bg.formula(rng.randint(1, 3), quant=False)
+        n += 1
+        if f.args():
+            nontriv += 1
+        for name, cls in (("cnf", CNFizer), ("polarity-cnf", PolarityCNFizer)):
+            try:
+                r = cls(env).convert_as_formula(f)
+            except Exception as e:
+                viol.append({"key": name + "-exception", "formula": f.serialize(), "error": repr(e)[:200]})
+                break
+            # shape: conjunction of clauses of literals
+            clauses = list(r.args()) if r.is_and() else [r]
+            okshape = True
+            for c in clauses:
+                lits = list(c.args()) if c.is_or() else [c]
+                for l in lits:
+                    a = l.arg(0) if l.is_not() else l
+                    if a.is_bool_op() or (a.is_ite() and a.get_type().is_bool_type()):
+                        okshape = False
+            if not okshape:
+                viol.append({"key": name + "-shape", "formula": f.serialize(), "result": r.serialize()})
+                break
+            orig = sorted(refeval.free_symbols(f), key=lambda s: s.symbol_name())
+            aux = sorted(refeval.free_symbols(r) - set(orig), key=lambda s: s.symbol_name())
+            if len(aux) > 10:
+                continue
+            for vals in all_interps(orig, rng, cap=32):
+                fv = bool(refeval.evaluate(f, refeval.Interp(values=dict(vals))))
+                ext = False
+                for av in itertools.product([False, True], repeat=len(aux)):
+                    vv = dict(vals)
+                    vv.update(zip(aux, av))
+                    rv = bool(refeval.evaluate(r, refeval.Interp(values=vv)))
+                    if rv:
+                        ext = True
+                        if not fv:
+                            viol.append({"key": name + "-unsound", "formula": f.serialize(), "result": r.serialize(),
+                                         "interpretation": {str(k): repr(v) for k, v in vv.items()}})
+                            break
+                if viol:
+                    break
+                if fv and not ext:
+                    viol.append({"key": name + "-not-extensible", "formula": f.serialize(), "result": r.serialize(),
+                                 "interpretation": {str(k): repr(v) for k, v in vals.items()}})
+                    break
+            if viol:
+                break
+        if viol:
+            break
+    # Ackermannization: functions over Bool / BV1 arguments, all function interpretations enumerated
+    fB = m.Symbol("af", FunctionType(BOOL, [BOOL, BOOL]))
+    gB = m.Symbol("ag", FunctionType(BOOL, [BOOL]))
+    a, b, c = bg.bools[0], bg.bools[1], bg.bools[2]
+    forms = [m.And(m.Function(fB, [a, c]), m.Not(m.Function(fB, [b, c]))),
+             m.Iff(m.Function(gB, [m.Function(gB, [a])]), m.Function(gB, [b])),
+             m.Or(m.Function(fB, [a, m.Function(gB, [b])]), m.Function(gB, [a])),
+             m.And(m.Function(fB, [a, b]), m.Function(fB, [b, a]), m.Not(m.Function(fB, [a, a]))),
+             m.Not(m.Iff(m.Function(gB, [a]), m.Function(gB, [b])))]
+    for f in forms if not viol else []:
+        n += 1
+        nontriv += 1
+        try:
+            r = Ackermannizer(env).do_ackermannization(f)
+        except Exception as e:
+            viol.append({"key": "ackermann-exception", "formula": f.serialize(), "error": repr(e)[:200]})
+            break
+        st, seen, uf = [r], set(), False
+        while st:
+            x = st.pop()
+            if x in seen:
+                continue
+            seen.add(x)
+            uf = uf or x.is_function_application()
+            st.extend(x.args())
+        if uf:
+            viol.append({"key": "ackermann-shape", "formula": f.serialize(), "result": r.serialize()})
+            break
+        orig = [s for s in sorted(refeval.free_symbols(f), key=lambda s: s.symbol_name()) if not s.symbol_type().is_function_type()]
+        aux = sorted(set(refeval.free_symbols(r)) - set(orig), key=lambda s: s.symbol_name())
+        # all interpretations of the two functions (as truth tables)
+        tables_f = list(itertools.product([False, True], repeat=4))
+        tables_g = list(itertools.product([False, True], repeat=2))
+        for vals in all_interps(orig, rng, cap=16):
+            sat_in = False
+            for tf in tables_f:
+                for tg in tables_g:
+                    I = refeval.Interp(values=dict(vals), funcs={fB: lambda x, y, tf=tf: tf[2 * int(x) + int(y)],
+                                                                 gB: lambda x, tg=tg: tg[int(x)]})
+                    if refeval.evaluate(f, I):
+                        sat_in = True
+            sat_out = False
+            for av in itertools.product([False, True], repeat=len(aux)):
+                vv = dict(vals)
+                vv.update(zip(aux, av))
+                if refeval.evaluate(r, refeval.Interp(values=vv)):
+                    sat_out = True
+            if sat_in != sat_out:
+                viol.append({"key": "ackermann", "formula": f.serialize(), "result": r.serialize(),
+                             "interpretation": {str(k): repr(v) for k, v in vals.items()}, "input_satisfiable_for_some_functions": sat_in,
+                             "output_satisfiable_for_some_constants": sat_out})
+                break
+        if viol:
+            break
+    return {"name": "cnf", "bounded": True, "evaluations": n, "distinct_nontrivial": nontriv,
+            "rule": "%d generated quantifier-free formulas (plus constant / ITE corner cases) through both CNF conversions: every "
+                    "interpretation of the original symbols x every value of the introduced symbols evaluated (model extension and "
+                    "restriction, clause shape); Ackermannization of 5 formulas with nested applications of a binary and a unary "
+                    "Boolean function against all function tables" % trials,
+            "samples": samples, "violations": viol}
+
+
+CHECKS.update({"rewriters": rewriters_check, "cnf": cnf_check})
